@@ -9,7 +9,9 @@ Persist that returned nil — or *torn*; `remove` first takes an exclusive flock
 
 A root's logical content is abstract: it is the number `k` of batches applied (`absAfter k`);
 batch `c` is the `c`-th batch introduced, so a snapshot with content `k` *covers* `c` iff `c ≤ k`.
-Segment ids are physical and are modelled (which snapshot names which segment file).
+Segment ids are physical and are modelled (which snapshot names which segment file). New ids are fresh in
+the sense of the code: above `List(segment)[0] + 1` as seen by OpenWriter (`sidFloor`) and not handed out
+since (`used`) — an id whose Persist failed before a close may be handed out again by the next writer.
 
 Serves C02, C11 (proved in `BlugeProofs`), and is the base of C03 (`crash`, `openWriter`) and
 C14 (`fault`, `segEnd/snapEnd … false`, `persistFail`). -/
@@ -157,7 +159,8 @@ structure State where
   mergeW : List Nat := []      -- merged segment files being written (Persist has not returned)
   pending : List Nat := []     -- merged segment files written, not (yet) introduced
   readers : List Reader := []
-  used : List Nat := []        -- ghost: every segment id ever used
+  sidFloor : Nat := 0          -- segment ids below this are taken (OpenWriter: newest segment file on disk + 2)
+  used : List Nat := []        -- segment ids handed out since OpenWriter
   acked : List Nat := []       -- ghost: batches whose acknowledgement was released (nil)
   commits : List Nat := []     -- ghost: epochs committed to the policy by this writer, in order
   deriving DecidableEq, Repr, Inhabited
@@ -209,6 +212,14 @@ def Event.exact : Event → Bool
   | .snapEnd true x => x
   | _ => true
 
+/-- the id cannot be handed out again by `atomic.AddUint64(&s.nextSegmentID, 1)` -/
+def isUsed (s : State) (x : Nat) : Prop := x < s.sidFloor ∨ x ∈ s.used
+
+instance (s : State) (x : Nat) : Decidable (isUsed s x) := by unfold isUsed; infer_instance
+
+/-- the largest segment file id on disk (0 if none): `List(ItemKindSegment)[0]` -/
+def Disk.maxSeg (d : Disk) : Nat := d.segs.foldl (fun m g => max m g.1) 0
+
 def rootFiles (s : State) : List Nat := s.rootSegs.filter (fun x => !s.rootMem.contains x)
 
 /-- insertion into an epoch-ascending list (loadSnapshots walks oldest → newest) -/
@@ -232,16 +243,16 @@ def reopen (s : State) : Option State :=
   | none =>
       if s.disk.snaps.isEmpty then
         some { disk := s.disk, pol := { n := s.pol.n }, isOpen := true, lock := true,
-               used := s.used, acked := s.acked, readers := s.readers }
+               sidFloor := s.disk.maxSeg + 2, acked := s.acked, readers := s.readers }
       else none
   | some f =>
       some { disk := s.disk, pol := commitAll s.pol.n ls, isOpen := true, lock := true,
-             used := s.used, acked := s.acked, readers := s.readers, commits := ls.map (·.epoch),
+             sidFloor := s.disk.maxSeg + 2, acked := s.acked, readers := s.readers, commits := ls.map (·.epoch),
              applied := f.k, rootEpoch := f.epoch, nextEpoch := f.epoch + 1,
              rootSegs := f.segs, lastPersisted := f.epoch }
 
 def stepIntro (s : State) (e : Nat) (sid : Option Nat) (dropped : List Nat) (safe cb : Bool) : Option State :=
-  if s.isOpen = true ∧ s.nextEpoch ≤ e ∧ (∀ x ∈ sid.toList, x ∉ s.used) then
+  if s.isOpen = true ∧ s.nextEpoch ≤ e ∧ (∀ x ∈ sid.toList, ¬ isUsed s x) then
     some { s with applied := s.applied + 1, rootEpoch := e, nextEpoch := e + 1,
                   rootSegs := s.rootSegs.filter (fun x => !dropped.contains x) ++ sid.toList,
                   rootMem := s.rootMem.filter (fun x => !dropped.contains x) ++ sid.toList,
@@ -301,7 +312,7 @@ def stepSegEnd (s : State) (sid : Nat) (ok exact : Bool) : Option State :=
   | none => none
 
 def stepMergeSegBegin (s : State) (sid : Nat) : Option State :=
-  if s.isOpen = true ∧ sid ∉ s.used then some { s with mergeW := sid :: s.mergeW, used := sid :: s.used } else none
+  if s.isOpen = true ∧ ¬ isUsed s sid then some { s with mergeW := sid :: s.mergeW, used := sid :: s.used } else none
 
 def stepMergeSegEnd (s : State) (sid : Nat) (ok exact : Bool) : Option State :=
   if sid ∈ s.mergeW then
@@ -399,7 +410,7 @@ def stepFault (s : State) (f : FaultKind) : Option State :=
 
 /-- the process dies: memory is lost, the flock is released by the OS, files stay as they are -/
 def stepCrash (s : State) : Option State :=
-  some { disk := s.disk, pol := { n := s.pol.n }, used := s.used, acked := s.acked }
+  some { disk := s.disk, pol := { n := s.pol.n }, sidFloor := s.sidFloor, used := s.used, acked := s.acked }
 
 def stepOpen (s : State) : Option State :=
   if s.lock = true then some s          -- Lock() fails before any truncation, removal or clean-up
@@ -410,7 +421,7 @@ def stepOpen (s : State) : Option State :=
 def stepClose (s : State) : Option State :=
   if s.isOpen = true ∧ s.job = none ∧ s.mergeW = [] then
     some { disk := s.disk, pol := s.pol, isOpen := false, lock := false, readers := s.readers,
-           used := s.used, acked := s.acked, commits := s.commits }
+           sidFloor := s.sidFloor, used := s.used, acked := s.acked, commits := s.commits }
   else none
 
 /-- one event; `none` = the event is not enabled in `s` (the code cannot do this here) -/
